@@ -204,6 +204,23 @@ def routeTag : Option TextFlags → String
 /-- `Ex.sameObs` on transported cells: equal, or both not-true (NULL / FALSE) -/
 def sameCell (a b : String) : Bool := a == b || ((a == "n" || a == "b:f") && (b == "n" || b == "b:f"))
 
+def kwName (c : Ex.Str) : Ex.Str :=
+  if c == ['a'] then "order_id".toList else if c == ['b'] then "is_b".toList else if c == ['s'] then "origin".toList
+  else if c == ['t'] then "island".toList else if c == ['f'] then "is_ok".toList else if c == ['n'] then "notes".toList else c
+
+/-- known-finding class `fixed-arity-call-missing-column`: the SELECT item is a call of a function with exactly two
+arguments whose argument is a column the row does not carry; the engine hands the function the TEXT of the column's name
+(`if_null(a, 5)` on `{}` is `"a"`).  The names such a call would leak, in both spellings of the harness. -/
+def leakedNames (row : Row Float) : Expr → List String
+  | .paren e => leakedNames row e
+  | .call2 f a b =>
+    if f == "if_null".toList || f == "null_if".toList then
+      ([a, b].filterMap fun x => match x with
+        | .col c => if (lookup c row).isNone then some c else none
+        | _ => none).flatMap fun c => ["s:" ++ hex c, "s:" ++ hex (kwName c)]
+    else []
+  | _ => []
+
 def stepRow (e : Expr) (flags : Option TextFlags) (isBool : Bool) (cells : List (Option (Value Float)))
     (impl : List (List String)) : RowOut :=
   let row := mkRow cells
@@ -249,7 +266,8 @@ def stepRow (e : Expr) (flags : Option TextFlags) (isBool : Bool) (cells : List 
       -- `sameObs` on canonical cells (zero sign and NaN payload are not observed)
       -- a deviation is explained by a recorded class only if the model reproduces it
       if sameCell (cellOf v) c then [] else
-        [("select-value", if !parses then "not-operator"
+        [("select-value", if (leakedNames row e).contains c then "fixed-arity-call-missing-column"
+          else if !parses then "not-operator"
           else if !shapeOK e .e && rLine == rImpl then "condition-as-operand"
           else if bridgeFirst && !nonnull && rLine == rImpl then "null-operand-exprlang" else "none")]
     | .ok _, _ => [("select-value", "none")]
@@ -296,10 +314,6 @@ def cfgOf (c : Case) (k : String) : Option (List String) :=
   (c.cfg.find? fun l => l.head? = some k).map List.tail
 
 /-- the harness's long spellings of the six columns -/
-def kwName (c : Ex.Str) : Ex.Str :=
-  if c == ['a'] then "order_id".toList else if c == ['b'] then "is_b".toList else if c == ['s'] then "origin".toList
-  else if c == ['t'] then "island".toList else if c == ['f'] then "is_ok".toList else if c == ['n'] then "notes".toList else c
-
 def renameCols : Expr → Expr
   | .lit l => .lit l
   | .str s => .str s
